@@ -848,9 +848,12 @@ class MessageManager(ClientLike):
         msg = cd.MDF_ACTIVE_CLIENTS()
         msg.timestamp = time.perf_counter()
 
-        for i, (sock, module) in enumerate(self.modules.items()):
+        # iterate over a copy: a failed delivery of CLIENT_INFO removes the failing module
+        for i, (sock, module) in enumerate(list(self.modules.items())):
             # if sock == self.listen_socket:
             #     continue
+            if sock not in self.modules:
+                continue
             # ACTIVE_CLIENTS only has room for MAX_ACTIVE_CLIENTS entries
             if i < cd.MAX_ACTIVE_CLIENTS:
                 msg.client_mod_id[i] = module.mod_id
